@@ -7,7 +7,7 @@ from typing import Dict, Tuple
 
 import sympy as sp
 
-from .algebra import (S, MetricTranslator, Ops, discharge, equal_forms, load_spec, normal_form, sign_of)
+from .algebra import (S, MetricTranslator, MetricViolation, Ops, discharge, equal_forms, load_spec, normal_form, sign_of)
 from .core import AnalysisError, Repo, unparse
 
 
@@ -18,11 +18,26 @@ class Metrics:
         self.mt = MetricTranslator(repo)
         self.registry = self.mt.registry()
         self.cache: Dict[Tuple[str, str], object] = {}
+        self.lossy: Dict[str, str] = {}
 
-    def names(self):
-        """Registry identifiers whose value is a module-level function (others are reported by REG-entry)."""
+    def names(self, include_lossy: bool = False):
+        """Registry identifiers whose value is a module-level function (others are reported by REG-entry)
+        and whose body could be translated (lossy bodies are reported by FORM / LOSSY)."""
         fns = self.mt.mi.functions
-        return [n for n in sorted(self.registry) if self.registry[n] in fns]
+        out = []
+        for n in sorted(self.registry):
+            if self.registry[n] not in fns:
+                continue
+            if self.translated(n) is None and not include_lossy:
+                continue
+            out.append(n)
+        return out
+
+    def report_lossy(self, rep, pre: str, rule: str) -> None:
+        for n in sorted(self.registry):
+            if self.registry[n] in self.mt.mi.functions and self.translated(n) is None:
+                fi = self.mt.mi.functions[self.registry[n]]
+                rep.fn(pre + rule, fi, f"{n}: body is built from the operations of its closed form", False, self.lossy.get(n, ""))
 
     def domain(self, name: str) -> str:
         return self.spec.AXIOMS[name][0] if name in self.spec.AXIOMS else "R"
@@ -32,7 +47,11 @@ class Metrics:
         key = (name, domain)
         if key not in self.cache:
             ops = Ops(domain)
-            self.cache[key] = (self.mt.translate(self.registry[name], ops), ops)
+            try:
+                self.cache[key] = (self.mt.translate(self.registry[name], ops), ops)
+            except MetricViolation as exc:
+                self.lossy[name] = str(exc)
+                self.cache[key] = None
         return self.cache[key]
 
     def rel(self, fi):
@@ -41,6 +60,7 @@ class Metrics:
 
 def check_closed_forms(rep, M: Metrics, pre: str = "") -> int:
     n = 0
+    M.report_lossy(rep, pre, "FORM")
     for name in M.names():
         if name not in M.spec.REFERENCE:
             rep.fn(pre + "FORM-known", M.repo.need_method("OPF", "__init__"), f"identifier {name!r}", False,
@@ -144,6 +164,7 @@ def check_decorator_domain(rep, M: Metrics, pre: str = "") -> int:
 def check_value_axioms(rep, M: Metrics, pre: str = "") -> int:
     """n / t: theorem table on the reference form, transferred by code == reference."""
     n = 0
+    M.report_lossy(rep, pre, "AXIOMS")
     for name in M.names():
         dom, ax = M.spec.AXIOMS.get(name, ("R", ""))
         for a in ("n", "t"):
@@ -176,9 +197,16 @@ def check_monotone_family(rep, M: Metrics, pre: str = "") -> int:
         g = sp.simplify(g)
         ok = not g.has(S) and not g.has(ops.X) and not g.has(ops.Y)
         detail = "the body is not a function of sum((x - y)^2) alone"
-        if ok:
+        if ok and (g.has(sp.Min) or g.has(sp.Max) or g.has(sp.Piecewise) or g.has(sp.Abs) or g.has(sp.floor)):
+            ok = False
+            detail = (f"g(s) = {sp.sstr(g)} contains a clamp / piecewise step: it is not strictly increasing on all of "
+                      "[0, inf), so distinct distances can receive the same weight")
+        elif ok:
             dg = sp.simplify(sp.diff(g, s))
-            g0 = sp.limit(g, s, 0, "+")
+            try:
+                g0 = sp.limit(g, s, 0, "+")
+            except Exception:
+                g0 = sp.simplify(g.subs(s, 0))
             ok = bool(dg.is_positive) and g0 == 0
             detail = f"g(s) = {sp.sstr(g)}: g'(s) = {sp.sstr(dg)} must be > 0 for s > 0 and g(0) = {sp.sstr(g0)} must be 0"
         n += 1
